@@ -142,7 +142,7 @@ package fstxn
 // commits it, and only then releases the locks and frees in memory.
 //@ specfunc commitReady(op *FsTxn) = opOpen(op) && cphase == 0 && dirtyInv()
 //@ spec (*FsTxn).commitWait
-//@   props C01 C03 C05 C07 C09 C10 C11
+//@   props C01 C03 C05 C07 C08 C09 C10 C11
 //@   requires commitReady(op)
 //@   requires [S1-at-commit] forall i uint64 :: held[i] ==> !dirtyinum[i] @C10 @C01
 //@   preserves [allocInv] allocInv() @C15 @C04
@@ -199,7 +199,7 @@ package fstxn
 // A1-A3 (C09): abort drops the cached copy of every inode the transaction
 // wrote, releases the locks and returns the allocations to the allocators.
 //@ spec (*FsTxn).Abort
-//@   props C09 C03 C05 C06 C10
+//@   props C09 C03 C05 C06 C08 C10
 // (aborting twice is tolerated only when the first abort had nothing to give back)
 //@   requires opInv(op) && curop == base(op) && listsValid(op.Atxn) && dirtyInv()
 //@   requires [A1-once] lastst == 0 || (lastst == 3 && len(op.Atxn.allocInums) == 0 && len(op.Atxn.allocBnums) == 0) @C09 @C05
